@@ -291,6 +291,13 @@ func tryFindPrefix(node *RegexNode, vsb *bytes.Buffer) bool {
 				// and the smallest amount of prefix that overlapped with all
 				// the previously seen branches.
 				addedLength = commonPrefixLen(vsbSlice[:addedLength], alternateSb.Bytes())
+
+				// The comparison is byte-wise: two branches starting with different
+				// characters that share a leading UTF-8 byte (é / è) must not leave
+				// half a character behind.
+				for addedLength > 0 && addedLength < len(vsbSlice) && !utf8.RuneStart(vsbSlice[addedLength]) {
+					addedLength--
+				}
 			}
 
 			// Then cull back on what was added based on the other branches.
@@ -1207,12 +1214,14 @@ func findLiteralFollowingLeadingLoop(node *RegexNode) *LiteralAfterLoop {
 		// The literal can be searched for as either a single char or as a string.
 		// But we need to make sure that its starting character isn't part of the preceding
 		// set, as then we can't know for certain where the set loop ends.
-		if firstChild.Set.CharIn(rune(prefix[0])) {
+		// (the prefix is UTF-8: its first character is decoded, not its first byte)
+		firstChar, firstSize := utf8.DecodeRuneInString(prefix)
+		if firstChild.Set.CharIn(firstChar) {
 			return nil
-		} else if len(prefix) == 1 {
+		} else if len(prefix) == firstSize {
 			return &LiteralAfterLoop{
 				LoopNode: firstChild,
-				Char:     rune(prefix[0]),
+				Char:     firstChar,
 			}
 		}
 		return &LiteralAfterLoop{
